@@ -20,6 +20,7 @@
 #include "action.h"
 
 #include <sstream>
+#include <algorithm>
 
 #include <tbox/base/log.h>
 #include <tbox/base/json.hpp>
@@ -294,8 +295,18 @@ void Action::onBlock(const Reason &why, const Trace &trace) {
   if (block_cb_) {
     Trace new_trace(trace);
     new_trace.emplace_back(id_, type_, label_);
-    block_cb_run_id_ = loop_.runNext(std::bind(block_cb_, why, new_trace),
-                                     std::string("Action::block") + ToString(new_trace));
+    //! 在前一个阻塞通知送达之前，有可能再次阻塞。每个在途的通知都要记下来，否则就撤消不了
+    auto run_id_holder = std::make_shared<event::Loop::RunId>(0);
+    auto func = std::bind(block_cb_, why, new_trace);
+    *run_id_holder = loop_.runNext(
+      [this, run_id_holder, func] {
+        //! 已送达的就不用再撤消了
+        block_cb_run_ids_.erase(std::remove(block_cb_run_ids_.begin(), block_cb_run_ids_.end(), *run_id_holder),
+                                block_cb_run_ids_.end());
+        func();
+      },
+      std::string("Action::block") + ToString(new_trace));
+    block_cb_run_ids_.push_back(*run_id_holder);
   }
 
   is_base_func_invoked_ = true;
@@ -324,10 +335,9 @@ void Action::cancelDispatchedCallback() {
     finish_cb_run_id_ = 0;
   }
 
-  if (block_cb_run_id_ != 0) {
-    loop_.cancel(block_cb_run_id_);
-    block_cb_run_id_ = 0;
-  }
+  for (auto run_id : block_cb_run_ids_)
+    loop_.cancel(run_id);
+  block_cb_run_ids_.clear();
 }
 
 bool Action::setParent(Action *parent) {
